@@ -151,8 +151,31 @@ class Calls:
             if f.ref is not None and str(f.ref) in st.ghost.get("cancel_funcs", {}):
                 return [(st, None)]     # context.CancelFunc: no effect on the channel layer
             if f.ref is not None:
+                ti = self.type_invs.get(f.t)
+                if ti is not None and any(cl.kind == "nonnil" and "." in cl.extra.get("fields", []) for cl in ti.clauses):
+                    st.assume(f.ref != NIL)     # declared input validity: values of this function type are never nil
+                    self.used_contracts.add("extern nonnil values of " + short(f.t))
                 self.check_cond(fr, st, f.ref != NIL, "nil-func-call", ins)
-            return self.effect_call(st, "dyn." + (short(f.t).rsplit("/", 1)[-1].rsplit(".", 1)[-1] if f.t and "func(" not in short(f.t) else "func"), args, rtypes, pos)
+            dname = "dyn." + (short(f.t).rsplit("/", 1)[-1].rsplit(".", 1)[-1] if f.t and "func(" not in short(f.t) else "func")
+            dd = self.contract_for(dname)
+            if dd is not None:
+                return self.apply_contract(fr, st, dd, dname, None, args, rtypes, pos, ins)
+            if st.held and self.cur is not None and not self.quiet:
+                # a function value called under a lock: either its type has a declared effect (dyn.<Type> contract, above), or it is a
+                # parameter the contract lists under `invokes` (then each call site answers for what it hands in)
+                ok = False
+                for pn in self.cur["decl"].attrs.get("invokes") or []:
+                    pv = self.cur["names"].get(pn)
+                    if isinstance(pv, FuncV) and pv.ref is not None and f.ref is not None and z3.eq(pv.ref, f.ref):
+                        ok = True
+                o = self.obl("lock", "callout-effect-declared", self.lock_props())
+                o.instances += 1
+                if ok:
+                    o.proved += 1
+                else:
+                    o.failed.append({"pos": pos, "reason": "a %s value is called with %s held, but no contract declares its `acquires` effect" % (
+                        dname[4:], ", ".join(str(h[4]) for h in st.held))})
+            return self.effect_call(st, dname, args, rtypes, pos)
         raise Unsupported("call of %r" % (f,))
 
     def call_iface(self, fr, st, iface_t, mname, args, rtypes, pos, ins):
@@ -164,6 +187,17 @@ class Calls:
             vals = [st.from_uf(rt, name + ("#%d" % i if len(rtypes) > 1 else ""), [recv.ref] + al) for i, rt in enumerate(rtypes)]
             return [(st, self.pack(rtypes, vals))]
         cname = "(%s).%s" % (iface_t, mname)
+        if self.cur is not None and not self.quiet and iface_t.startswith(self.MODULE):
+            d = self.contract_for(cname)
+            if d is None or "acq" not in d.attrs:
+                rel = self.lock_relevant_funcs()
+                locky = [f for f in self.implementors(iface_t, mname) if f in rel]
+                if st.held or locky:
+                    o = self.obl("lock", "callout-effect-declared", self.lock_props())
+                    o.instances += 1
+                    o.failed.append({"pos": pos, "iface_method": cname, "reason": "%s.%s is called%s, but its contract declares no `acquires` effect%s" % (
+                        short(iface_t), mname, (" with %s held" % ", ".join(str(h[4]) for h in st.held)) if st.held else "",
+                        ("; implemented by %s, which can reach a mutex" % ", ".join(short(f) for f in locky)) if locky else "")})
         return self.call_named(fr, st, cname, args, rtypes, pos, ins)
 
     def call_named(self, fr, st, name, args, rtypes, pos, ins, freevars=None):
@@ -207,8 +241,18 @@ class Calls:
             return [(st, self.pack(rtypes, vals))]
         return self.effect_call(st, name, args, rtypes, pos)
 
+    def assume_nonnil_values(self, st, vals):
+        """function types declared `nonnil .` (input validity / assumed of a dependency): a value of that type is never nil"""
+        for v in vals:
+            if isinstance(v, FuncV) and v.ref is not None and v.t:
+                ti = self.type_invs.get(v.t)
+                if ti is not None and any(cl.kind == "nonnil" and "." in cl.extra.get("fields", []) for cl in ti.clauses):
+                    st.assume(v.ref != NIL)
+                    self.used_contracts.add("extern nonnil values of " + short(v.t))
+
     def effect_call(self, st, name, args, rtypes, pos, kind="call"):
         vals = [st.fresh(rt, "r") for rt in rtypes]
+        self.assume_nonnil_values(st, vals)
         st.log(name, args, vals, pos, kind)
         self.unmodelled.add(short(name))
         return [(st, self.pack(rtypes, vals))]
@@ -255,7 +299,10 @@ class Calls:
             goal = to_bool(ctx.eval(cl.ast))
             self.check_pre(fr, st, goal, decl, cl, ins)
             st.assume(goal)
+        self.check_locked_pre(fr, st, decl, name, args, ins)
+        self.callee_lock_effects(fr, st, decl, name, args, ins)
         vals = [st.fresh(rt, "r") for rt in rtypes]
+        self.assume_nonnil_values(st, vals)
         if "effectfree" in flags:
             for v in vals:
                 if isinstance(v, IfaceV) and not (rtypes and rtypes[-1] == "error" and v is vals[-1]):
